@@ -335,7 +335,7 @@ pub fn check_project(ctx: &Ctx, n: u64, pv: &ProjView) -> (Vec<Violation>, Vec<V
     (v06, v20, maps, segs)
 }
 
-fn view_json(pv: &ProjView) -> Value {
+pub fn view_json(pv: &ProjView) -> Value {
     json!({"files":pv.files.iter().map(|(a,b)| json!([a,b])).collect::<Vec<_>>(),"root":pv.root,"schema_paths":pv.schema_paths,"op_paths":pv.op_paths,"schema_output":pv.schema_output,"resolvers_output":pv.resolvers_output,"decl_ext":pv.decl_ext,"schema_module_specifier":pv.schema_module_specifier})
 }
 
